@@ -1779,6 +1779,13 @@ int QSexact_solver (mpq_QSdata * p_mpq,
 		mpf_QSfree_prob (p_mpf);
 		p_mpf = 0;
 	}
+	/* every certified answer leaves through 'goto CLEANUP' above: an OPTIMAL
+	 * or INFEASIBLE that is still standing when the precision ladder is
+	 * exhausted is only the verdict of the rational re-test about the last
+	 * floating-point BASIS (e.g. "this basis is primal infeasible"); it was
+	 * never put through the optimality / infeasibility test */
+	if (*status == QS_LP_OPTIMAL || *status == QS_LP_INFEASIBLE)
+		*status = QS_LP_UNSOLVED;
 	/* ending */
 CLEANUP:
 	dbl_EGlpNumFreeArray (x_dbl);
